@@ -295,7 +295,8 @@ def c_blank_lines(src):
 
 
 def c_rename_locals(src):
-    for a in ("msave", "ic_label", "zpmax", "iempty", "ipt"):
+    for a in ("msave", "ic_label", "zpmax", "iempty", "ipt", "ip", "ipp", "ippp", "ic_dist", "mask", "iwshed", "init", "jl", "jn", "diff", "ep1",
+              "iq_end", "iq_start", "ifict_pixel"):
         src = re.sub(rf"\b{a}\b", a + "_v", src)
     return src
 
